@@ -119,6 +119,12 @@ def build_calls(mname, q, R):
             tag = "%s:q=%s:sheared(%s%+g)" % (mname, q, cell0, dl)
             raw.append((tag, "ubi_to_u_and_eps", "sheared", mod.ubi_to_u_and_eps, (ubi_s, cell0), False))
             raw.append((tag, "ubi_to_u", "sheared", mod.ubi_to_u, (ubi_s,), False))
+    # the same valid right-handed UBI written in other length units (1e-10 .. 1e8 x): handedness is a sign, not a size; the left-handed one likewise
+    ubi0 = np.linalg.inv(R @ B) * f
+    for sc_ in (1e-10, 1e-7, 1e-4, 1e4, 1e8):
+        tag = "%s:q=%s:scaled(%g)" % (mname, q, sc_)
+        raw.append((tag, "ubi_to_u", "scaled-valid", mod.ubi_to_u, (ubi0 * sc_,), False))
+        raw.append((tag + ":rows-swapped", "ubi_to_u", "scaled-lefthanded", mod.ubi_to_u, (ubi0[[1, 0, 2], :] * sc_,), True))
     # explicit left-handed UBI: two rows of a valid UBI swapped
     ubi = np.linalg.inv(R @ B) * f
     sw = ubi[[1, 0, 2], :]
@@ -261,7 +267,7 @@ def seq_alphabet():
             if (fn, label) in keep and (mname == "tools" or fn in ("u_to_euler", "ubi_to_u", "ub_to_u_b")):
                 ops.append(("call", "%s:%s" % (tag, fn), thunk, rej))
         for tag, fn, label, thunk, rej in euler_calls(mname):
-            if label in ("inrange", "out[1]=6.28419") and mname == "laue":
+            if label in ("inrange", "out[1]=6.28419"):
                 if tag.endswith("(0.1, 0.2, 0.3)") or rej:
                     ops.append(("call", "%s:%s" % (tag, fn), thunk, rej))
     return ops
@@ -345,6 +351,20 @@ def check_case(case):
                 goto(s)
                 for tag, fn, label, thunk, rej in calls:
                     check_call(r, s, "%s:%s" % (tag, fn), fn, label, thunk, rej, ref_cache)
+            # ... and back: on -> off -> on.  What a call does depends on the CURRENT state of the switch only, not on the state in which the
+            # same arguments were seen before (a result memoised while the switch was off must not be served once it is on again)
+            if True in seen and False in seen:
+                goto(True)
+                for tag, fn, label, thunk, rej in calls:
+                    key = "%s:%s" % (tag, fn)
+                    first_on = ref_cache.get(key)
+                    kind, val = run_call(thunk)
+                    r.evals += 1
+                    r.transitions += 1
+                    same = first_on is not None and kind == first_on[0] and (kind != "ok" or same_value(val, first_on[1]))
+                    if not same:
+                        r.violation(key + ":on-again", "switch on -> off -> on: the call behaves as it did the first time the switch was on",
+                                    [first_on[0], repr(first_on[1])[:160]] if first_on else None, [kind, repr(val)[:160]])
             # history on argument objects: one float64 array that passes the checks, is then edited in place by the caller to an
             # invalid matrix (must be rejected), and restored (must pass again) - in every reachable switch state
             if case["kind"] == "bfs":
